@@ -471,11 +471,16 @@ fn check(prop: &str, tier: &str, seed: u64) -> i32 {
     println!("check {prop} tier={tier} VERIF_SEED={seed} threads={threads} repo_rev={}", repo_rev());
     // the list of runs is a pure function of (seed, tier)
     let mut jobs: Vec<(Scenario, u64, u64)> = Vec::new();
+    // VERIF_SCALE_PCT (default 100) thins the plan out for the change x check matrix: that
+    // percentage of the random runs, every (100/pct)-th case of the enumerated spaces
+    let pct: u64 = std::env::var("VERIF_SCALE_PCT").ok().and_then(|s| s.parse().ok()).filter(|p| (1..=100).contains(p)).unwrap_or(100);
+    let stride = 100 / pct;
     for (si, item) in plan.items.iter().enumerate() {
-        for i in 0..item.runs {
+        let runs = if item.enumerate { item.runs / stride } else { (item.runs * pct / 100).max(1) };
+        for i in 0..runs {
             let s = mix(mix(seed, 0x5CE0 + si as u64), i);
             let extra = match (item.enumerate, item.sample_space) {
-                (true, _) => i,
+                (true, _) => i * stride,
                 (false, Some(n)) => mix(s, 0xE87A) % n,
                 _ => 0,
             };
@@ -651,6 +656,7 @@ fn check(prop: &str, tier: &str, seed: u64) -> i32 {
             "exhaustive": plan.exhaustive,
             "runs_per_scenario": agg.per_scenario,
             "runs_planned": total,
+            "plan_scale_percent": pct,
             "wall_clock_cap_hit": capped.load(std::sync::atomic::Ordering::Relaxed),
             "runs_per_hour": runs_per_hour as u64,
             "seeds_per_hour": runs_per_hour as u64,
